@@ -542,6 +542,9 @@ func freshValue(m *Module, v ssa.Value, d int) bool {
 				return true
 			}
 		}
+		if isStdClone(g, "maps") || isStdClone(g, "slices") {
+			return true
+		}
 		return false
 	case *ssa.Phi:
 		for _, e := range x.Edges {
@@ -575,6 +578,73 @@ func eventConsts(m *Module) map[string]int64 {
 
 // mapLiteral extracts the constant entries of a map literal built in f (MakeMap + MapUpdates with constant key/value).
 func mapLiterals(f *ssa.Function) [][][2]constant.Value {
+	out := mapLiteralsIn(f)
+	// package-level tables the function reads: map variables initialised by a literal and never assigned again
+	if f.Pkg == nil {
+		return out
+	}
+	seen := map[*ssa.Global]bool{}
+	for _, b := range f.Blocks {
+		for _, in := range b.Instrs {
+			u, ok := in.(*ssa.UnOp)
+			if !ok {
+				continue
+			}
+			g, ok := u.X.(*ssa.Global)
+			if !ok || seen[g] || g.Pkg != f.Pkg {
+				continue
+			}
+			seen[g] = true
+			initF := f.Pkg.Func("init")
+			if initF == nil {
+				continue
+			}
+			writers := 0
+			for _, mem := range f.Pkg.Members {
+				if fn, ok := mem.(*ssa.Function); ok && fn != initF {
+					for _, bb := range fn.Blocks {
+						for _, i2 := range bb.Instrs {
+							if st, ok := i2.(*ssa.Store); ok && st.Addr == ssa.Value(g) {
+								writers++
+							}
+						}
+					}
+				}
+			}
+			if writers > 0 {
+				continue
+			}
+			for _, bb := range initF.Blocks {
+				for _, i2 := range bb.Instrs {
+					if st, ok := i2.(*ssa.Store); ok && st.Addr == ssa.Value(g) {
+						if mm, ok := st.Val.(*ssa.MakeMap); ok {
+							if e := mapEntries(mm); len(e) > 0 {
+								out = append(out, e)
+							}
+						}
+					}
+				}
+			}
+		}
+	}
+	return out
+}
+
+func mapEntries(mm *ssa.MakeMap) [][2]constant.Value {
+	var entries [][2]constant.Value
+	for _, r := range *mm.Referrers() {
+		if mu, ok := r.(*ssa.MapUpdate); ok && mu.Map == ssa.Value(mm) {
+			k, ok1 := mu.Key.(*ssa.Const)
+			v, ok2 := mu.Value.(*ssa.Const)
+			if ok1 && ok2 && k.Value != nil && v.Value != nil {
+				entries = append(entries, [2]constant.Value{k.Value, v.Value})
+			}
+		}
+	}
+	return entries
+}
+
+func mapLiteralsIn(f *ssa.Function) [][][2]constant.Value {
 	var out [][][2]constant.Value
 	for _, b := range f.Blocks {
 		for _, in := range b.Instrs {
